@@ -221,7 +221,8 @@ def _feature_default_false(fn):
             key = x.args[0]
             par = getattr(x, '_parent', None)
             is_feature = isinstance(par, ast.Compare) and any(isinstance(o, ast.Is) for o in par.ops) or \
-                (isinstance(par, (ast.If,)) and par.test is x) or isinstance(par, ast.BoolOp) or isinstance(par, ast.UnaryOp)
+                (isinstance(par, (ast.If,)) and par.test is x) or isinstance(par, ast.BoolOp) or isinstance(par, ast.UnaryOp) or \
+                (isinstance(par, ast.comprehension) and any(i is x for i in par.ifs))
             if not is_feature:
                 continue
             n += 1
@@ -320,6 +321,12 @@ def c10c(ctx):
         adds = g.find(lambda x: is_call(x, 'allowed_layers.append')) + [(n, g.stmt[n]) for n in g.find_stmts(
             lambda s: isinstance(s, ast.Assign) and isinstance(s.targets[0], ast.Subscript) and unparse(s.targets[0].value) == 'allowed_layers')]
         ok = bool(adds) and all(g.guarded(n, lambda at: '.get(' in at.text and "'tile'" in at.text, True) for n, x in adds)
+        # the same list written as a comprehension: the filter carries the permission test
+        comps = [s_.value for s_ in fn.walk() if isinstance(s_, ast.Assign) and unparse(s_.targets[0]) == 'allowed_layers' and
+                 isinstance(s_.value, (ast.ListComp, ast.DictComp))]
+        if comps and not adds:
+            ok = all(any(at.op is None and '.get(' in at.text and "'tile'" in at.text and p is True
+                         for t in c.generators[0].ifs for at, p in implied(t, True)) for c in comps)
         ctx.check(ok, fn.short + ':only-permitted-listed', 'a layer is listed only if its tile permission is set', fn)
         n, bad = _feature_default_false(fn)
         ctx.check(n >= 1 and not bad, fn.short + ':feature-default-false', 'default of the tile permission lookup is False', fn,
